@@ -182,9 +182,11 @@ func init() {
 		// quick: one block of up to two transactions in the two widest transaction worlds, short
 		// histories in the staking / order-book worlds, and the worlds with more than 100 candidates
 		// (the structures whose iteration order matters are the ones with many entries)
-		worldsQ := []wr{{"pay", 2, 2, 1, 0}, {"coin", 2, 2, 1, 0}, {"stake", 2, 2, 2, 1}, {"book", 1, 1, 2, 0}, {"stakemany", 1, 1, 3, 1}, {"stakemanytie", 2, 2, 2, 1}}
+		worldsQ := []wr{{"pay", 2, 2, 1, 0}, {"coin", 2, 2, 1, 0}, {"stake", 2, 2, 2, 1}, {"book", 1, 1, 2, 0}, {"stakemany", 1, 1, 3, 1}, {"stakemanytie", 2, 2, 2, 1},
+			// four transactions in ONE block: three orders at one price behind a better resting order, then a taker
+			{"bookties", 4, 4, 1, 1}}
 		// thorough: deeper histories, 64 seeds x GOMAXPROCS {1,16}; cheapest worlds first, the time budget cuts the tail
-		worldsT := []wr{{"stakemanytie", 2, 2, 3, 1}, {"stakemany102", 1, 1, 3, 1}, {"stakemany", 2, 1, 3, 1}, {"book", 2, 2, 2, 0}, {"stake", 2, 2, 2, 1}, {"pool", 2, 2, 1, 0}, {"coin", 2, 2, 2, 0}, {"pay", 2, 2, 2, 0}, {"stake", 1, 1, 2, 0}}
+		worldsT := []wr{{"bookties", 5, 5, 1, 1}, {"stakemanytie", 2, 2, 3, 1}, {"stakemany102", 1, 1, 3, 1}, {"stakemany", 2, 1, 3, 1}, {"book", 2, 2, 2, 0}, {"stake", 2, 2, 2, 1}, {"pool", 2, 2, 1, 0}, {"coin", 2, 2, 2, 0}, {"pay", 2, 2, 2, 0}, {"stake", 1, 1, 2, 0}}
 		var cfgs []c08Config
 		if c.Quick() {
 			// seed = start bucket << 3 | in-bucket offset: 16 different start buckets, all 8 offsets
